@@ -636,3 +636,52 @@ Theorem window_composite_proof b0 b1 b2 b3 rest : byte b0 -> byte b1 -> byte b2 
 Proof.
   intros. split; [apply decode3_compose; assumption|]. split; [apply decode4_compose; assumption|apply decode_first4].
 Qed.
+
+(* ------------------------------------------------------------ well-formed = encodings of scalar-value sequences *)
+Theorem wellformed_iff_scalar_sequence_proof bs :
+  WellFormed bs <-> exists cps, Forall is_scalar cps /\ bs = concat (map utf8_encode cps).
+Proof.
+  split.
+  - induction 1 as [|s r W Wr IH].
+    + exists []. split; [constructor|reflexivity].
+    + destruct IH as (cps & F & E). destruct (wf_encode s W) as [S Es].
+      exists (scalar_of s :: cps). split; [constructor; assumption|]. simpl. rewrite Es, <- E. reflexivity.
+  - intros (cps & F & ->). induction F as [|c cps Sc F IH]; [constructor|].
+    simpl. apply WFS_app; [apply encode_wf; exact Sc|exact IH].
+Qed.
+
+(* ------------------------------------------------------------ what remove_invalid_utf8 writes, read back *)
+Lemma split_at_nodelim d : forall bs cur, no_delim d cur = true ->
+  forallb (no_delim d) (fst (split_at d bs cur)) = true /\ no_delim d (snd (split_at d bs cur)) = true.
+Proof.
+  induction bs as [|b r IH]; intros cur HC.
+  - simpl. split; [reflexivity|]. unfold no_delim in *. rewrite forallb_forall in *. intros x Hx. apply HC. apply in_rev. exact Hx.
+  - simpl. destruct (b =? d) eqn:E.
+    + destruct (IH [] eq_refl) as [A B]. destruct (split_at d r []) as [rs t]. simpl in *. split; [|exact B].
+      rewrite A, andb_true_r. unfold no_delim in *. rewrite forallb_forall in *. intros x Hx. apply HC. apply in_rev. exact Hx.
+    + apply IH. unfold no_delim in *. simpl. rewrite E, HC. reflexivity.
+Qed.
+
+Lemma records_nocr_nodelim d bs : forallb (no_delim d) (records d false bs) = true.
+Proof.
+  unfold records. destruct (split_at_nodelim d bs [] eq_refl) as [A B].
+  destruct (split_at d bs []) as [rs t]. simpl in *. rewrite map_id, forallb_app, A.
+  destruct t; [reflexivity|]. cbn [forallb andb]. rewrite B. reflexivity.
+Qed.
+
+Lemma forallb_filter {A} (p q : A -> bool) l : forallb p l = true -> forallb p (filter q l) = true.
+Proof.
+  induction l as [|x l IH]; intros H; [reflexivity|]. simpl in H. apply andb_true_iff in H. destruct H as [Hx Hl].
+  simpl. destruct (q x); [simpl; rewrite Hx; apply IH; exact Hl|apply IH; exact Hl].
+Qed.
+
+Theorem remove_invalid_output_wellformed_proof input : bytes_okb input = true ->
+  records 10 false (remove_invalid_utf8 input) = filter is_utf8b (records 10 false input) /\
+  Forall WellFormed (records 10 false (remove_invalid_utf8 input)).
+Proof.
+  intros HB. destruct (remove_invalid_utf8_proof input HB) as [E Iff].
+  assert (records 10 false (remove_invalid_utf8 input) = filter is_utf8b (records 10 false input)) as R.
+  { rewrite E. apply records_unrecords. apply forallb_filter. apply records_nocr_nodelim. }
+  split; [exact R|]. rewrite R. rewrite Forall_forall. intros l Hl. apply filter_In in Hl. destruct Hl as [Hin Hu].
+  apply (Iff l Hin). exact Hu.
+Qed.
